@@ -502,12 +502,18 @@ func (w *world) setup() {
 	}
 
 	// --- 5. pub/sub topics ------------------------------------------------------------------
+	var topicObs string
 	w.add(&target{name: "pubsub.topic", factor: 64, slack: 1 << 16,
 		seeds: [][]byte{[]byte("acc/chat/" + signPub.Account()), []byte("a/b/c"), []byte("a/*/>"), []byte(strings.Repeat("s/", 15) + "x"), []byte(strings.Repeat("s/", 16) + "x")},
 		run: func(in []byte) error {
+			topicObs = ""
 			e1 := pubsub.ValidateTopic(string(in))
 			e2 := pubsub.ValidatePattern(string(in))
-			_ = pubsub.TopicOwner(string(in))
+			owner := pubsub.TopicOwner(string(in))
+			if owner == "" {
+				owner = "-"
+			}
+			topicObs = fmt.Sprintf("topic=%s pattern=%s owner=%s", cls(e1), cls(e2), owner)
 			if e1 != nil && e2 != nil {
 				return e1
 			}
@@ -525,11 +531,7 @@ func (w *world) setup() {
 			} else if s == "-" {
 				return "", ""
 			}
-			owner := pubsub.TopicOwner(string(in))
-			if owner == "" {
-				owner = "-"
-			}
-			return "topic " + s, fmt.Sprintf("topic=%s pattern=%s owner=%s", cls(pubsub.ValidateTopic(string(in))), cls(pubsub.ValidatePattern(string(in))), owner)
+			return "topic " + s, topicObs
 		}})
 
 	// --- 6. space payloads ------------------------------------------------------------------
